@@ -5,6 +5,7 @@ import sys
 PROPERTY_MODULES = {
     "C01": ["contracts.c01"],
     "C02": ["contracts.c01", "contracts.c02"],
+    "C07": ["contracts.c05", "contracts.c06", "contracts.c07"],
     "C08": ["contracts.c05", "contracts.c06", "contracts.c08"],
     "C10": ["contracts.c10"],
     "C11": ["contracts.c05", "contracts.c11"],
